@@ -15,8 +15,9 @@ MATCHERS = {}
 def regen_leaves():
     """CmGen/Leaves.lean: the numeric functions of the source as they read now (the `source_*` theorems of
     CmProps/C06tie.lean identify them with the model)"""
-    from translate import leaves
+    from translate import leaves, parsersrc
     leaves.generate()
+    parsersrc.generate()        # CmGen/ParserSrc.lean: detect_color_format, format_color, the string branch of parse_color_to_rgb (CmProps/C06fmt.lean)
 
 
 def _t3(v):
@@ -89,6 +90,8 @@ def check(run):
     run.proof = proof_status("C06", regenerate=regen_leaves)
     from translate import leaves as _leaves
     run.extra["source_translation"] = _leaves.summary()
+    from translate import parsersrc as _psrc
+    run.extra["source_translation_parser"] = _psrc.summary()
     q = run.quick()
     repo_import()
     run.rule = ("round trip: %s x formats {hex, rgb(), hsl(), tuple}, each output checked for shape, re-read by the "
